@@ -186,6 +186,8 @@ def _set_script(case):
     st["base"] = (bool(o.get("no_data_loss")), bool(o.get("no_explicit_cast")))
     st["union"] = case.get("kind") == "logical" and case.get("comb") == "|"
     st["flags"] = {}
+    _CUR_NAMES.clear()
+    _CUR_NAMES.update(case.get("names", {}))
     return E
 
 
@@ -221,6 +223,10 @@ def _item_id(e):
         return it
     if it in ("_obj_self", "_d"):
         return {"_obj_self": 60, "_d": 61}[it]
+    if isinstance(it, str) and it in _CUR_NAMES.values():
+        return _key_id(it)
+    if isinstance(it, str) and ":" in it and it.split(":", 1)[1] in _CUR_NAMES.values():
+        return _key_id(it.split(":", 1)[1])       # "**vk:<key>"
     if isinstance(it, str):
         m = re.search(r"(\d+)$", it)
         if m and "<" not in it:
@@ -377,9 +383,26 @@ def _impl_logical(case):
         return _exc_out(e)
 
 
+_CUR_NAMES = {}     # key id -> real key / field name of the current case (non-ASCII, letter-case variants)
+
+
 def _key_name(k):
+    if str(k) in _CUR_NAMES:
+        return _CUR_NAMES[str(k)]
     # two key ids stand for the parameter names of the (pre-fix) generated __init__
     return {60: "_obj_self", 61: "_d"}.get(k, f"k{k}")
+
+
+def _key_id(name):
+    """the key id a real name stands for (results / error items)"""
+    for k, v in _CUR_NAMES.items():
+        if v == name:
+            return int(k)
+    if name in ("_obj_self", "_d"):
+        return {"_obj_self": 60, "_d": 61}[name]
+    if name[:1] == "k" and name[1:].isdigit():
+        return int(name[1:])
+    return int(name) if name.isdigit() else -1
 
 
 def _field(E, f, param=False):
@@ -396,6 +419,8 @@ def _field(E, f, param=False):
         kw["required"] = False
     if f.get("disc_real"):
         kw["discriminator"] = "kind"
+    if f.get("ci"):
+        kw["case_insensitive"] = True
     return (Param if param else Field)(**kw)
 
 
@@ -486,7 +511,7 @@ def _impl_schema(case):
             inst = S(**{_key_name(k): _mk_input(E, v) for k, v in case["kwargs"]})
         kv = []
         for k, v in _inst_items(inst):
-            kid = int(k[1:]) if k[:1] == "k" and k[1:].isdigit() else int(k) if k.isdigit() else {"_obj_self": 60, "_d": 61}.get(k, -1)
+            kid = _key_id(k)
             kv.append([kid, _canon(E, v)])
         out = {"out": "ok", "value": sorted(kv, key=lambda p: p[0])}
     except Exception as e:
@@ -1084,15 +1109,31 @@ def _impl_hostile(case):
                 call = lambda: S(_hv(case["value"]))                    # noqa
         else:
             fn, flavor = _hfunc(tgt["func"], state)
-            a = [_hv(x) for x in case.get("args", [])]
-            k = {n: _hv(v) for n, v in case.get("kwargs", {}).items()}
-            if flavor == "async":
-                import asyncio
-                call = lambda: asyncio.run(fn(*a, **k))                 # noqa
-            elif flavor == "gen":
-                call = lambda: list(fn(*a, **k))                        # noqa
-            else:
-                call = lambda: fn(*a, **k)                              # noqa
+
+            def mk_call(f):
+                a = [_hv(x) for x in case.get("args", [])]
+                k = {n: _hv(v) for n, v in case.get("kwargs", {}).items()}
+                if flavor == "async":
+                    import asyncio
+                    return lambda: asyncio.run(f(*a, **k))
+                if flavor == "gen":
+                    return lambda: list(f(*a, **k))
+                return lambda: f(*a, **k)
+            fo = tgt["func"].get("options") or {}
+            if fo.get("collect_errors"):
+                # ground truth: the same function without collect_errors / max_errors
+                from utype.utils.exceptions import ParseError
+                strict_fd = dict(tgt["func"], options={x: y for x, y in fo.items() if x not in ("collect_errors", "max_errors")})
+                sfn, _ = _hfunc(strict_fd, state)
+                try:
+                    mk_call(sfn)()
+                    state["flags"]["strict_failed"] = False
+                except ParseError:
+                    state["flags"]["strict_failed"] = True
+                except Exception:
+                    state["flags"]["strict_failed"] = None
+                state["flags"].pop("body", None)
+            call = mk_call(fn)
     except Exception as e:
         return {"out": "decl-error", "error": f"{type(e).__name__}: {e}"[:200]}
     try:
@@ -1314,6 +1355,48 @@ def _gen_field(rng, i, typed=True):
     return f
 
 
+# names on which lower(), casefold() and upper().lower() disagree, combining characters, the Turkish i's
+CI_NAMES = ["größe", "straße", "λόγος", "ıd", "i̇d", "é_x", "ǆ", "ﬁeld", "σας", "maß", "ÿ", "ſ_x", "abc", "k_ab"]
+
+
+def _ci_variants(rng, name):
+    vs = [name.upper(), name.title(), name.swapcase(), name.capitalize(), name.casefold(), name.upper().lower()]
+    vs = [v for v in dict.fromkeys(vs) if v != name and v.isidentifier()]
+    return vs
+
+
+def add_ci_names(rng, case, fields, for_func=False):
+    """give the fields case-insensitive non-ASCII names and put letter-case variants of them among the keys: a variant
+    stands for the field's key id iff variant.lower() == name (utype normalises with lower()), else it is an unknown key"""
+    names = {}
+    import unicodedata
+    pool = [n for n in CI_NAMES if not for_func or unicodedata.normalize("NFKC", n) == n]   # the compiler NFKC-normalises identifiers
+    pool = rng.sample(pool, len(pool))
+    for f in fields:
+        for a in f["aliases"]:
+            names[str(a)] = pool.pop()
+        f["ci"] = True
+    km = {}
+    nxt = 200
+    extra = []
+    for f in fields:
+        for a in f["aliases"]:
+            for v in rng.sample(_ci_variants(rng, names[str(a)]), min(2, len(_ci_variants(rng, names[str(a)])))):
+                if rng.random() < 0.6 and v not in names.values():
+                    names[str(nxt)] = v
+                    owner = [b for b, n in names.items() if int(b) < 200 and n == v.lower()]
+                    po_ids = {str(g["id"]) for g in fields if g.get("kind") == "po"}
+                    # data-first: the name of a positional-only parameter is an ordinary extra key (base.py:476-479);
+                    # field-first has no such test: the lower-cased key is looked up like any alias
+                    if owner and (owner[0] not in po_ids or not case.get("opts", {}).get("data_first_search")):
+                        km[str(nxt)] = int(owner[0])
+                    extra.append(nxt)
+                    nxt += 1
+    case["names"] = names
+    case["key_model"] = km
+    return extra
+
+
 def gen_schema(rng):
     o = _base_opts(rng)
     r = rng.random()
@@ -1341,6 +1424,9 @@ def gen_schema(rng):
     keys = [a for f in fields for a in f["aliases"]]
     chosen = [k for k in keys if rng.random() < 0.6] + [k for k in (50, 51) if rng.random() < 0.3]
     chosen += [k for k in (60, 61) if rng.random() < 0.12]      # "_obj_self" / "_d": data keys like any other
+    if rng.random() < 0.22 and not conflict:
+        chosen += add_ci_names(rng, case, fields)
+        rng.shuffle(chosen)
     rng.shuffle(chosen)
     sc = []
     kwargs = []
@@ -1477,10 +1563,48 @@ def running_opts(case):
     return run
 
 
+def _must_fail_func(case):
+    """decorated function: a typed parameter (positional, keyword, or an item of the typed *args tail) under the throw
+    policy is given a token its type refuses => the call must end in a ParseError before the body"""
+    o = case.get("opts", {})
+    if o.get("ignore_required") or o.get("max_params") or o.get("min_params"):
+        return None
+    script = {(e[0], e[1], e[2]): e[3] for e in reversed(case.get("script", []))}
+
+    def refuses(t, tok):
+        a = script.get((0, t, tok))
+        return isinstance(a, dict) and "raise" in a
+    pos = [p for p in case["params"] if p["kind"] != "ko"]
+    for i, tok in enumerate(case["args"]):
+        if i < len(pos):
+            p = pos[i]
+            pol = p.get("on_error") or o.get("invalid_values") or "throw"
+            if p.get("t") is not None and pol == "throw" and refuses(p["t"], tok):
+                return f"positional parameter #{i} is given a value its type refuses"
+        elif case.get("var_pos") and case.get("pos_t") is not None:
+            if (o.get("invalid_items") or "throw") == "throw" and refuses(case["pos_t"], tok):
+                return f"item #{i} of the typed *args tail is refused by its type"
+    km = case.get("key_model", {})
+    given = {}
+    for k, v in case["kwargs"]:
+        given.setdefault(km.get(str(k), k), []).append(v)
+    npos_given = {p["id"] for p in pos[:len(case["args"])]}
+    for p in case["params"]:
+        if p["kind"] == "po" or p["id"] in npos_given:
+            continue
+        vals = given.get(p["id"], [])
+        pol = p.get("on_error") or o.get("invalid_values") or "throw"
+        if len(vals) == 1 and p.get("t") is not None and pol == "throw" and refuses(p["t"], vals[0]):
+            return f"keyword parameter k{p['id']} is given a value its type refuses"
+    return None
+
+
 def must_fail(case):
     """a sufficient condition, read off the declaration and the script alone, for "this input does not parse":
     a typed field under the throw policy is given (under exactly one of its keys) a token its type refuses, or a
     required field is not given at all.  Used as ground truth for "no instance comes out of invalid data"."""
+    if case["kind"] == "func":
+        return _must_fail_func(case)
     if case["kind"] != "schema" or case.get("form") or any(f.get("disc") for f in case["fields"]):
         return None
     if case.get("entry") in ("from", "init_dict") and ("skv" not in case.get("input_real", {})):
@@ -1491,11 +1615,18 @@ def must_fail(case):
     if case.get("entry") == "nested" and (case["outer"]["opts"].get("invalid_values") or "throw") != "throw":
         return None     # the outer field's own policy may legitimately preserve / exclude the failing inner value
     given = {}
+    km = case.get("key_model", {})
+    dup = set()
     for k, v in case["kwargs"]:
+        k = km.get(str(k), k)
+        if k in given:
+            dup.add(k)
         given[k] = v["tokobj"] if isinstance(v, dict) else v
     script = {(e[0], e[1], e[2]): e[3] for e in reversed(case.get("script", []))}
     for f in case["fields"]:
         keys = [a for a in f["aliases"] if a in given]
+        if any(a in dup for a in keys):
+            continue
         if not keys:
             if f["required"] and f.get("default") is None:
                 return f"required field k{f['id']} is not given"
@@ -1592,6 +1723,10 @@ def gen_func(rng):
     kw = [k for k in names if rng.random() < 0.6] + [k for k in (50, 51) if rng.random() < 0.25]
     # the name of a positional-only parameter passed by keyword is an ordinary additional key
     kw += [p["id"] for p in ps if p["kind"] == "po" and rng.random() < 0.12]
+    if rng.random() < 0.2:
+        extra = add_ci_names(rng, case, ps, for_func=True)
+        # a letter-case variant only for a parameter that is not given positionally (double binding is Python's TypeError)
+        kw += [k for k in extra if case["key_model"].get(str(k)) not in given]
     rng.shuffle(kw)
     case["kwargs"] = [[k, rng.choice(U)] for k in kw]
     toks = set(case["args"]) | {v for _, v in case["kwargs"]}
@@ -1611,7 +1746,7 @@ def gen_func(rng):
     case["script"] = sc
     # model-side declaration
     fd = lambda p: {"id": p["id"], "aliases": [p["id"]], "t": p["t"], "on_error": p["on_error"],     # noqa
-                    "required": p["required"], "default": p["default"], "po": p["kind"] == "po"}
+                    "required": p["required"], "default": p["default"], "po": p["kind"] == "po", "ci": p.get("ci", False)}
     case["fields"] = [fd(p) for p in ps]
     case["positional"] = [fd(p) for p in ps if p["kind"] != "ko"]
     case["pos_only"] = [[i, fd(p)] for i, p in enumerate(ps) if p["kind"] == "po"]
@@ -1761,7 +1896,10 @@ H_VALUES = {
     "[inf]": _V("list", xs=[_V("float", s="inf")]), "{'a':inf}": _V("dict", kv=[["a", _V("float", s="inf")]]), "[bad]": _V("list", xs=[_V("bad", what="repr+str")]),
     "{bad_hash}": _V("list", xs=[_V("bad", what="hash")]), "{'a':bad_eq}": _V("dict", kv=[["a", _V("bad", what="eq+ne")]]), "dt": _V("datetime"), "date": _V("date"),
     "td": _V("timedelta"), "'2020-01-01'": "2020-01-01", "'P'+'1'*3000": "P" + "1" * 3000, "'1:'*2000": "1:" * 2000, "'a=1&b=2'": "a=1&b=2", "'a,b'": "a,b",
-    "{'kind':[]}": _V("dict", kv=[["kind", _V("list", xs=[])]]), "'\\x00'": "\x00", "'١٢٣'": "١٢٣", "'1_000'": "1_000", "'0x10'": "0x10", "' 12 '": " 12 ",
+    "{'kind':[]}": _V("dict", kv=[["kind", _V("list", xs=[])]]),
+    "{'Größe':1}": _V("dict", kv=[["Größe", 1]]), "{'GRÖSSE':1}": _V("dict", kv=[["GRÖSSE", 1]]), "{'ΛΌΓΟΣ':'x'}": _V("dict", kv=[["ΛΌΓΟΣ", "x"], ["größe", 2]]),
+    "{'größe':1,'Größe':2}": _V("dict", kv=[["größe", 1], ["Größe", 2]]), "{'STRASSE':1}": _V("dict", kv=[["STRASSE", 1], ["Straße", 3]]),
+    "{'ID':1,'İD':2}": _V("dict", kv=[["ID", 1], ["İD", 2], ["Id", 3]]), "{'ΣΑΣ':1}": _V("dict", kv=[["ΣΑΣ", 1], ["Größe", 5]]), "{'Maß':'x'}": _V("dict", kv=[["Maß", "x"], ["MASS", 1]]), "'\\x00'": "\x00", "'١٢٣'": "١٢٣", "'1_000'": "1_000", "'0x10'": "0x10", "' 12 '": " 12 ",
 }
 for _how in ("gen", "genpairs", "count", "cycle", "repeat", "map", "range", "longgen", "iterobj", "iterable", "getitem", "slowseq",
              "next_raises", "iter_raises", "getitem_raises", "len_raises", "next_forever", "len_forever"):
@@ -1813,6 +1951,11 @@ H_SCHEMAS = {
     "S19": {"name": "S19", "fields": [_fld("x", {"union": [{"schema": {"name": "LA", "fields": [_fld("kind", {"literal": ["a"]})]}},
                                                           {"schema": {"name": "LB", "fields": [_fld("kind", {"literal": ["b"]})]}}]},
                                           discriminator="kind")]},
+    "S20": {"name": "S20", "fields": [_fld("größe", P("int"), case_insensitive=True), _fld("λόγος", P("str"), case_insensitive=True, required=False)],
+            "options": {"data_first_search": True}},
+    "S20f": {"name": "S20f", "fields": [_fld("straße", P("int"), case_insensitive=True, alias_from=["maß"]), _fld("ıd", P("int"), case_insensitive=True, default=0)],
+             "options": {"data_first_search": False, "addition": True}},
+    "S20c": {"name": "S20c", "fields": [_fld("größe", PINT), _fld("σας", P("int"), default=1)], "options": {"case_insensitive": True, "data_first_search": True, "collect_errors": True}},
     "S18": {"name": "S18", "fields": [_fld("a", H_TYPES["Set[list]"], required=False), _fld("n", {"schema": {"name": "S18n", "fields": [_fld("a", PINT)]}}, required=False)],
             "options": {"max_params": 2, "addition": True}},
 }
@@ -1837,6 +1980,10 @@ H_FUNCS = {
     "f6": {"params": [], "var_pos": PINT, "ret": H_TYPES["Tuple[int,...]"], "returns": _V("tuple", xs=[1]), "options": {"invalid_items": "exclude"}},
     "f7": {"params": [_p("a", "pk", PINT)], "ret": PINT, "returns": 2, "flavor": "async"},
     "f8": {"params": [_p("a", "pk", H_TYPES["Dict[list,int]"]), _p("b", "ko", H_TYPES["list_contains_dt"], default=None)], "flavor": "gen"},
+    "f10": {"params": [_p("a", "pk", P("int"))], "var_pos": PINT, "options": {"collect_errors": True}},
+    "f11": {"params": [_p("größe", "pk", P("int"), default=0), _p("λόγος", "ko", P("str"), default="")], "var_kw": P("int"),
+            "options": {"case_insensitive": True, "data_first_search": True}},
+    "f12": {"params": [_p("a", "pk", PINT)], "var_pos": P("datetime"), "var_kw": PINT, "options": {"collect_errors": True, "max_errors": 3}},
     "f9": {"params": [_p("a", "pk", {"schema": H_SCHEMAS["S3"]}), _p("b", "pk", {"schema": H_SCHEMAS["S5"]}, default=None)]},
 }
 
@@ -2006,6 +2153,13 @@ def _tok_json(j):
     return j
 
 
+def _map_keys(j, km):
+    """letter-case variants of a key stand for the key id of the alias they lower() to"""
+    if km and isinstance(j, dict) and "map" in j:
+        return {"map": [[km.get(str(k), k) if isinstance(k, int) else k, v] for k, v in j["map"]]}
+    return j
+
+
 def _norm_val(v):
     """sets: sorted, equal tokens once; dicts: Python's insertion semantics (first position, last value)"""
     if isinstance(v, dict) and "seq" in v:
@@ -2024,12 +2178,15 @@ def _norm_val(v):
     return v
 
 
-def _same_info(mi, ii):
+def _same_info(mi, ii, km=None):
     if bool(mi["perr"]) != bool(ii["perr"]) or mi["cls"] != ii["cls"]:
         return False
     if mi["perr"] and mi.get("origin") != ii.get("origin"):
         return False
-    if mi.get("site") in ITEM_SITES and mi.get("item") != ii.get("item"):
+    it = ii.get("item")
+    if km and it is not None:
+        it = km.get(str(it), it)        # an additional key keeps the spelling it was given in
+    if mi.get("site") in ITEM_SITES and mi.get("item") != it:
         return False
     return True
 
@@ -2108,6 +2265,7 @@ class C04(Check):
         k = case["kind"]
         if k == "hostile":
             return {"kind": "skip"}
+        km = case.get("key_model", {})
         opts = dict(case.get("opts", {}))
         if opts.get("no_data_loss") and opts.get("addition") is None:
             opts["addition"] = False        # Options.__init__: no_data_loss => addition=False unless given (options.py:151-155)
@@ -2138,12 +2296,15 @@ class C04(Check):
             line.update(entry=case["entry"], fields=case["fields"], addition_t=case.get("addition_t"),
                         str_keys=case.get("str_keys", True), cls_kind=case.get("cls_kind", "Schema"),
                         given=given, ctx=ctx, outer=case.get("outer"),
-                        kwargs=[[a, _tok_json(b)] for a, b in case.get("kwargs_model", case.get("kwargs", []))],
-                        input=_tok_json(case.get("input")))
+                        kwargs=[[km.get(str(a), a), _tok_json(b)] for a, b in case.get("kwargs_model", case.get("kwargs", []))],
+                        input=_map_keys(_tok_json(case.get("input")), km))
+            line["script"] = [[e[0], e[1], e[2], ({"ok": _map_keys(e[3]["ok"], km)} if e[0] == 5 and isinstance(e[3], dict) and isinstance(e[3].get("ok"), dict) else e[3])]
+                              for e in line["script"]]
         elif k == "func":
             line.update(fields=case["fields"], positional=case["positional"], pos_only=case["pos_only"],
                         exclude_indexes=case["exclude_indexes"], pos_var_index=case["pos_var_index"], pos_t=case.get("pos_t"),
-                        addition_t=case.get("addition_t"), return_t=case.get("return_t"), args=case["args"], kwargs=case["kwargs"])
+                        addition_t=case.get("addition_t"), return_t=case.get("return_t"), args=case["args"],
+                        kwargs=[[km.get(str(a), a), b] for a, b in case["kwargs"]])
         elif k == "iter":
             line.update(target=case["target"], in_kind=case["in_kind"], n=case["n"], nec=case["nec"], ndl=case["ndl"],
                         legacy_dt=bool(case.get("legacy", {}).get("dtContains")))
@@ -2204,13 +2365,16 @@ class C04(Check):
             return f"outcome differs: impl {io['out']} {io.get('info') or io.get('errors') or ''} / model {mo['out']} {mo.get('info') or mo.get('errors') or ''}"
         if io["out"] == "ok" and not case.get("novalue"):
             if case["kind"] == "schema":
-                mo = dict(mo, value=sorted(mo["value"], key=lambda p: p[0]))
+                kmm = case.get("key_model") or {}
+                mo = dict(mo, value=sorted(mo["value"], key=lambda p: json.dumps(p, sort_keys=True)))
+                io = dict(io, value=sorted([[kmm.get(str(k), k), v] for k, v in io["value"]], key=lambda p: json.dumps(p, sort_keys=True)))
             if _norm_val(io["value"]) != _norm_val(mo["value"]):
                 return f"value differs: impl {io['value']} model {mo['value']}"
-        if io["out"] == "raise" and not _same_info(mo["info"], io["info"]):
+        km = case.get("key_model")
+        if io["out"] == "raise" and not _same_info(mo["info"], io["info"], km):
             return f"exception differs: impl {io['info']} model {mo['info']}"
         if io["out"] == "collected":
-            if len(io["errors"]) != len(mo["errors"]) or not all(_same_info(m, i) for m, i in zip(mo["errors"], io["errors"])):
+            if len(io["errors"]) != len(mo["errors"]) or not all(_same_info(m, i, km) for m, i in zip(mo["errors"], io["errors"])):
                 return f"collected errors differ: impl {io['errors']} model {mo['errors']}"
         if case["kind"] == "func" and io.get("body") != ("enterBody" in mo.get("trace", [])):
             return f"body entered: impl {io.get('body')} model trace {mo.get('trace')}"
@@ -2276,6 +2440,12 @@ class C04(Check):
             why = must_fail(case)
             if why:
                 return f"an instance was created from input that does not parse ({why})"
+        if case["kind"] == "func" and (out == "ok" or io.get("body")):
+            why = must_fail(case)
+            if why:
+                return f"the function body was entered although the arguments do not parse ({why})"
+        if case["kind"] == "hostile" and io.get("strict_failed") and (out == "ok" or io.get("body")) and "func" in case["target"]:
+            return "the function body was entered under collect_errors with arguments that raise ParseError without it"
         if out == "ok" and case["kind"] == "hostile" and io.get("strict_failed"):
             return "an instance was created under run-time collect_errors from input that raises ParseError without it"
         if out == "raise" and not io["info"]["perr"]:
